@@ -73,7 +73,7 @@ class Ctx:
     # restructured beyond that, the rules -- which read the confirmed form -- can no longer be aligned with it: what they report
     # there is recorded as *undecided* (exit 2, the function has to be re-confirmed), never as a violation.  Rules that do not read
     # the shape of the function at all (ROBUST_RULES) are exempt.
-    ALIGN_MAX = 8
+    ALIGN_MAX = int(__import__('os').environ.get('PVX_ALIGN_MAX', '8'))     # (the environment variable exists for the threshold study in DESIGN.md 2.2a only)
     ROBUST_RULES = ("R20",)
 
     def restructured(self, construct):
